@@ -249,3 +249,38 @@ pub fn bie1_decrypt(recipient_secret: &[u8], sender_pub: Option<&[u8]>, wire: &[
     let ct = &wire[if has_key { 37 } else { 4 }..body_end];
     aes128_cbc_decrypt(&keys.ke, &keys.iv, ct).ok_or("padding")
 }
+
+/// Strict DER `SEQUENCE { INTEGER r, INTEGER s }` to 32-byte big-endian (r, s); None for anything else.
+pub fn der_rs(der: &[u8]) -> Option<(Vec<u8>, Vec<u8>)> {
+    fn int(b: &[u8]) -> Option<(Vec<u8>, &[u8])> {
+        if b.len() < 2 || b[0] != 0x02 {
+            return None;
+        }
+        let n = b[1] as usize;
+        if n == 0 || n > 33 || b.len() < 2 + n {
+            return None;
+        }
+        let mut v = &b[2..2 + n];
+        if v[0] & 0x80 != 0 {
+            return None;
+        }
+        while v.len() > 1 && v[0] == 0 {
+            v = &v[1..];
+        }
+        if v.len() > 32 {
+            return None;
+        }
+        let mut out = vec![0u8; 32 - v.len()];
+        out.extend_from_slice(v);
+        Some((out, &b[2 + n..]))
+    }
+    if der.len() < 8 || der[0] != 0x30 || der[1] as usize != der.len() - 2 {
+        return None;
+    }
+    let (r, rest) = int(&der[2..])?;
+    let (s, rest) = int(rest)?;
+    if !rest.is_empty() {
+        return None;
+    }
+    Some((r, s))
+}
